@@ -669,6 +669,8 @@ Proof.
     + injection EST as <- _. cbn [rs_handles] in Hp. rewrite skipn_all2 in Hp by (rewrite map_length; lia). destruct Hp.
     + destruct (walk _ _ _ _ _ _ _ _) as [t rl1]. injection EST as <- _. cbn [rs_handles] in Hp. rewrite skipn_all2 in Hp by (rewrite map_length; lia). destruct Hp.
     + (* reset: no handle is added *) injection EST as <- _. cbn [rs_handles] in Hp. rewrite skipn_nil in Hp. destruct Hp.
+    + (* ResetReadLimit / Unread: no handle is added *) injection EST as <- _. cbn [rs_handles] in Hp. rewrite skipn_all2 in Hp by (rewrite map_length; lia). destruct Hp.
+    + injection EST as <- _. cbn [rs_handles] in Hp. rewrite skipn_all2 in Hp by (rewrite map_length; lia). destruct Hp.
   - (* round trip *)
     destruct (root _ _ _) as [r rl]. intros E. injection E as <- _. exact SP.
   - (* dump *)
